@@ -479,6 +479,12 @@ func (p *Program) canon(fn *Func, x ast.Expr, depth int) string {
 				case "range-key":
 					return "rangekey(" + p.canon(fn, ds.rhs, depth+1) + ")"
 				case "range-val":
+					if call, isCall := ast.Unparen(ds.rhs).(*ast.CallExpr); isCall {
+						if f, _ := calleeObj(info, call).(*types.Func); f != nil && p.keySnapshotField(f) != "" {
+							// for _, k := range x.KeyList(): the elements of a snapshot of m's keys are m's keys
+							return "rangekey(" + p.canon(fn, ds.rhs, depth+1) + ")"
+						}
+					}
 					return "rangeval(" + p.canon(fn, ds.rhs, depth+1) + ")"
 				}
 			}
@@ -592,7 +598,13 @@ func (p *Program) canon(fn *Func, x ast.Expr, depth int) string {
 				}
 			}
 		}
-		return p.canon(fn, v.X, depth+1) + "[" + p.canon(fn, v.Index, depth+1) + "]"
+		cx, ci := p.canon(fn, v.X, depth+1), p.canon(fn, v.Index, depth+1)
+		if ci == "rangekey("+cx+")" {
+			// x[i] inside `for i := range x`: the element (x a slice: range over a map yields keys, and m[k] is
+			// the value of that key as well)
+			return "rangeval(" + cx + ")"
+		}
+		return cx + "[" + ci + "]"
 	case *ast.TypeAssertExpr:
 		return p.canon(fn, v.X, depth+1) + ".(" + types.ExprString(v.Type) + ")"
 	case *ast.CompositeLit:
@@ -619,7 +631,11 @@ func (p *Program) canon(fn *Func, x ast.Expr, depth int) string {
 		}
 		callee := calleeObj(info, v)
 		if f, ok := callee.(*types.Func); ok {
-			if fld := p.getterField(f); fld != "" {
+			fld := p.getterField(f)
+			if fld == "" {
+				fld = p.keySnapshotField(f) // a fresh slice of the keys of recv.f: ranged over like recv.f itself
+			}
+			if fld != "" {
 				if r := recvExpr(v); r != nil {
 					base := p.canon(fn, r, depth+1)
 					if strings.HasPrefix(base, "&var:") || strings.HasPrefix(base, "&local:") || strings.HasPrefix(base, "&recv") || strings.HasPrefix(base, "&param:") {
@@ -743,6 +759,102 @@ func paramIndex(fn *Func, o types.Object) int {
 
 // getterField: f is a method whose whole body is `return recv.field` (repo code), or a generated
 // protobuf getter GetX on a struct with field X (dependency code). Returns the field name.
+// keySnapshotField: f is a method without parameters whose whole body collects the keys of a map field
+// of its receiver into a fresh slice and returns it:
+//
+//	ks := make([]K, 0, len(recv.f)); for k := range recv.f { ks = append(ks, k) }; return ks
+//
+// It returns the field's name ("" otherwise). Ranging over the result visits exactly the keys of recv.f.
+func (p *Program) keySnapshotField(f *types.Func) string {
+	if v, ok := p.keySnap[f]; ok {
+		return v
+	}
+	if p.keySnap == nil {
+		p.keySnap = map[*types.Func]string{}
+	}
+	p.keySnap[f] = ""
+	sig, _ := f.Type().(*types.Signature)
+	def := p.Funcs[f]
+	if sig == nil || sig.Recv() == nil || sig.Params().Len() != 0 || sig.Results().Len() != 1 || def == nil || def.Body == nil || len(def.Body.List) != 3 {
+		return ""
+	}
+	if _, isSlice := sig.Results().At(0).Type().Underlying().(*types.Slice); !isSlice {
+		return ""
+	}
+	info := def.Info()
+	as, ok := def.Body.List[0].(*ast.AssignStmt)
+	if !ok || len(as.Lhs) != 1 || len(as.Rhs) != 1 {
+		return ""
+	}
+	sid, ok := as.Lhs[0].(*ast.Ident)
+	if !ok {
+		return ""
+	}
+	sobj := info.Defs[sid]
+	mk, ok := ast.Unparen(as.Rhs[0]).(*ast.CallExpr)
+	if !ok || sobj == nil {
+		return ""
+	}
+	if b, isB := calleeObj(info, mk).(*types.Builtin); !isB || b.Name() != "make" {
+		return ""
+	}
+	rg, ok := def.Body.List[1].(*ast.RangeStmt)
+	if !ok || rg.Key == nil || rg.Value != nil || len(rg.Body.List) != 1 {
+		return ""
+	}
+	kid, ok := rg.Key.(*ast.Ident)
+	if !ok {
+		return ""
+	}
+	se, ok := ast.Unparen(rg.X).(*ast.SelectorExpr)
+	if !ok {
+		return ""
+	}
+	base, ok := ast.Unparen(se.X).(*ast.Ident)
+	if !ok || info.Uses[base] != def.Recv {
+		return ""
+	}
+	sel, ok := info.Selections[se]
+	if !ok || sel.Kind() != types.FieldVal {
+		return ""
+	}
+	if _, isMap := sel.Obj().Type().Underlying().(*types.Map); !isMap {
+		return ""
+	}
+	ap, ok := rg.Body.List[0].(*ast.AssignStmt)
+	if !ok || len(ap.Lhs) != 1 || len(ap.Rhs) != 1 {
+		return ""
+	}
+	if l, ok := ap.Lhs[0].(*ast.Ident); !ok || info.Uses[l] != sobj {
+		return ""
+	}
+	call, ok := ast.Unparen(ap.Rhs[0]).(*ast.CallExpr)
+	if !ok || len(call.Args) != 2 {
+		return ""
+	}
+	if b, isB := calleeObj(info, call).(*types.Builtin); !isB || b.Name() != "append" {
+		return ""
+	}
+	a0, ok0 := ast.Unparen(call.Args[0]).(*ast.Ident)
+	a1, ok1 := ast.Unparen(call.Args[1]).(*ast.Ident)
+	if !ok0 || !ok1 || info.Uses[a0] != sobj || info.Uses[a1] != info.Defs[kid] {
+		return ""
+	}
+	rs, ok := def.Body.List[2].(*ast.ReturnStmt)
+	if !ok || len(rs.Results) != 1 {
+		return ""
+	}
+	if rid, ok := ast.Unparen(rs.Results[0]).(*ast.Ident); !ok || info.Uses[rid] != sobj {
+		return ""
+	}
+	fv, _ := sel.Obj().(*types.Var)
+	if fv == nil {
+		return ""
+	}
+	p.keySnap[f] = p.FieldName(fv)
+	return p.keySnap[f]
+}
+
 func (p *Program) getterField(f *types.Func) string {
 	sig, _ := f.Type().(*types.Signature)
 	if sig == nil || sig.Recv() == nil || sig.Params().Len() != 0 || sig.Results().Len() != 1 {
@@ -940,7 +1052,7 @@ func (p *Program) litFieldDeep(fn *Func, lit *ast.CompositeLit, name string, dep
 		if kv, ok := el.(*ast.KeyValueExpr); ok {
 			if id, ok := kv.Key.(*ast.Ident); ok {
 				// (the key may spell the field differently: a role played under another name)
-				if fv, isVar := fn.Info().Uses[id].(*types.Var); (isVar && p.FieldName(fv) == name) || id.Name == name {
+				if fv, isVar := fn.Info().Uses[id].(*types.Var); (isVar && p.FieldName(fv) == name) || (!isVar && id.Name == name) {
 					return kv.Value, fn, true
 				}
 			}
